@@ -74,7 +74,7 @@ func C10(c *core.Ctx) {
 		})
 	}
 	c.Floor("families", c.Counts["members"], 30, "family members at reference positions")
-	ruleMulti(c, ruleSet("A-ROUTE", "A-XPKG", "A-TYP", "A-DEF", "A-REQ", "A-REJ", "A-NOEXTRA", "A-NILG"))
+	ruleMulti(c, ruleSet("A-ROUTE", "A-XPKG", "A-TYP", "A-DEF", "A-REQ", "A-REJ", "A-NOEXTRA", "A-NILG", "A-MAP"))
 }
 
 // inlineIssues runs the INLINE twin of a member (every reference replaced by a copy of its target) and returns the (rule, construct)
@@ -219,5 +219,5 @@ func C20(c *core.Ctx) {
 	// B-REFCACHE: a cache keyed by the file-relative text of a $ref must live and die with one file's generator, or the code for a
 	// schema depends on which other files were processed before it
 	emit(c, a.RefCacheScope())
-	ruleMulti(c, ruleSet("A-ROUTE", "A-XPKG", "A-TYP", "A-ORDER", "A-DEF", "A-REQ", "A-REJ", "A-NOEXTRA"))
+	ruleMulti(c, ruleSet("A-ROUTE", "A-XPKG", "A-TYP", "A-ORDER", "A-DEF", "A-REQ", "A-REJ", "A-NOEXTRA", "A-MAP", "A-NILG"))
 }
